@@ -283,6 +283,14 @@ def run(ctx, rep):
                        "OpenMLS can still load after each prefix is a runtime question no sound static argument here can bound)")
     clause_marker_last(prog, rep)
     clause_multi_write_bracketed(prog, rep, sites)
+    # "rollback is all-or-nothing" at the level of the API call: what belongs to a rollback (invalidation, retry marking) is written only
+    # once the restore has succeeded (shared with C07)
+    rep.clause("C12.d the bookkeeping of a rollback (invalidation, retry marking) is success-dominated by the restore")
+    import os
+    import sys
+    sys.path.insert(0, os.path.dirname(os.path.abspath(__file__)))
+    import c07
+    c07.clause_only_after_rollback(prog, rep, "sql-bracket")
     ms = {
         "create_group_snapshot": prog.find(adt="MdkSqliteStorage", name="create_group_snapshot", trait="MdkStorageProvider"),
         "rollback_group_to_snapshot": prog.find(adt="MdkSqliteStorage", name="rollback_group_to_snapshot", trait="MdkStorageProvider"),
